@@ -61,3 +61,12 @@ def register(add, NOTE):
         "finding, pinned by golden files); free end -> E line, joined end -> own junction pulse, grounded end -> no line. The model of the "
         "E/J lines is tied to currents_as_mininec by correspondence with injected random complex currents.",
         "Rocq proof over topology + report model + vm_compute correspondence", "DESIGN.md §6 C09")
+
+    add("C13",
+        "Theorems: plain wires give n chained segments of equal stored length L/n with unit direction ending exactly at end 2 (reals); "
+        "accepted one- and two-sided tapers give exactly n pieces chained from p1 to p2 (any numeric instance) and end-2 tapering is the "
+        "mirror image; arcs: n+1 ends on the circle at uniform angles; helix ends on the tapered ellipse; rotations preserve dot products "
+        "and distances, order X,Y,Z; transformations are applied as a key-sorted permutation; scaling multiplies distances. The geometry / "
+        "taper models are tied to the code by a segment-level correspondence incl. assertion outcomes. PARTIAL: the growth factor <= 2.1 and "
+        "the [max(2.5r,min), max] window of tapers are measured on the real segments (taper1 asserts the window itself).",
+        "Rocq proof (structural for all instances, metric over R) + vm_compute correspondence + geometric oracle", "DESIGN.md §6 C13")
